@@ -1,4 +1,5 @@
 import RlModel.Lemmas.Exec
+import RlModel.Lemmas.ExecSorted
 /-!
 C11 — all physical implementations of an operator agree.
 
@@ -526,6 +527,89 @@ theorem hashagg_eq_sortagg_one_run (ks : List (Row → Val)) (aggs : List XAgg) 
   rw [List.filter_eq_self.mpr]
   · rfl
   · intro x hx; rw [hk x hx]; exact BEq.rfl
+
+
+/-! ## sort aggregation = hash aggregation on sorted input -/
+
+/-- states of the sort aggregation after the rows `acc` of the current run. -/
+def stOf (aggs : List XAgg) (acc : List Row) : List AggState :=
+  aggs.map (fun a => (acc.map a.arg).foldl (aggAppend a.kind) (initAgg a.kind))
+
+def outOf (aggs : List XAgg) (p : List Val × List Row) : Row :=
+  p.1 ++ aggs.map (fun a => rowPathVal a.kind (p.2.map a.arg))
+
+theorem appendRow_stOf (aggs : List XAgg) (acc : List Row) (r : Row) :
+    appendRow aggs (stOf aggs acc) r = stOf aggs (acc ++ [r]) := by
+  unfold stOf
+  rw [appendRow_map]
+  apply List.map_congr_left
+  intro a _
+  simp [List.foldl_append]
+
+theorem stOf_result (aggs : List XAgg) (k : List Val) (acc : List Row) :
+    k ++ (stOf aggs acc).map AggState.result = outOf aggs (k, acc) := by
+  unfold stOf outOf rowPathVal
+  simp [List.map_map, Function.comp]
+
+/-- `SortAggExecutor`'s loop emits one row per maximal run of adjacent equal keys (no hypothesis). -/
+theorem saLoop_runs (ks : List (Row → Val)) (aggs : List XAgg) (X : List Row) (k : List Val) (acc : List Row) :
+    saLoop ks aggs X (some k) (stOf aggs acc) = (runsAux (keyOf ks) X k acc).map (outOf aggs) := by
+  induction X generalizing k acc with
+  | nil => simp [saLoop, runsAux, stOf_result]
+  | cons r rs ih =>
+    unfold saLoop runsAux
+    dsimp only
+    have hb : ((some k : Option (List Val)) == some (keyOf ks r)) = (k == keyOf ks r) := rfl
+    rw [hb]
+    by_cases h : k == keyOf ks r
+    · simp only [h, if_true]
+      rw [appendRow_stOf, ih]
+    · simp only [h, Bool.false_eq_true, if_false, List.map_cons]
+      have : appendRow aggs (initStates aggs) r = stOf aggs [r] := by
+        have := appendRow_stOf aggs [] r
+        simpa [stOf, initStates] using this
+      rw [this, ih, stOf_result]
+      rfl
+
+theorem sortagg_runs (ks : List (Row → Val)) (aggs : List XAgg) (Xs : List Chunk) :
+    flat (sortAgg ks aggs Xs) = (runs (keyOf ks) (flat Xs)).map (outOf aggs) := by
+  unfold sortAgg
+  rw [flat_emit]
+  cases flat Xs with
+  | nil => rfl
+  | cons r rs =>
+    unfold saLoop runs
+    dsimp only
+    have hb : ((none : Option (List Val)) == some (keyOf ks r)) = false := rfl
+    simp only [hb, Bool.false_eq_true, if_false, List.nil_append]
+    have : appendRow aggs (initStates aggs) r = stOf aggs [r] := by
+      have := appendRow_stOf aggs [] r
+      simpa [stOf, initStates] using this
+    rw [this, saLoop_runs]
+
+/-- `hashagg_eq_sortagg`: on an input sorted by the grouping keys (`order` below `sortagg`), sort
+aggregation and hash aggregation return the same rows — even in the same order, with the same
+(row-path) aggregate values, whatever they are. -/
+theorem hashagg_eq_sortagg (ks : List (Row → Val)) (aggs : List XAgg) (Xs : List Chunk)
+    (hs : SortedBy rowCmp ((flat Xs).map (keyOf ks))) :
+    flat (sortAgg ks aggs Xs) = flat (hashAgg ks aggs Xs) := by
+  rw [sortagg_runs, hashagg_groupwise,
+    runs_sorted (keyOf ks) rowCmp rowCmp_lawful rowCmp_eq_iff (flat Xs).length (flat Xs) (Nat.le_refl _) hs,
+    List.map_map]
+  apply List.map_congr_left
+  intro k _
+  rfl
+
+/-- the hypothesis is needed: on an unsorted input sort aggregation splits a group. -/
+theorem hashagg_eq_sortagg_unsorted_unsound :
+    ¬ (∀ (Xs : List Chunk), flat (sortAgg [col0] [{ kind := .rowCount, arg := col0 }] Xs) =
+        flat (hashAgg [col0] [{ kind := .rowCount, arg := col0 }] Xs)) := by
+  intro h
+  have := h [[[.i32 1], [.i32 2], [.i32 1]]]
+  revert this; decide
+
+example : SortedBy rowCmp (([[.null], [.i32 1], [.i32 1], [.i32 3]] : List Row).map (keyOf [col0])) := by
+  unfold SortedBy; decide
 
 
 end RlModel
